@@ -386,7 +386,8 @@ static const int DA_IN_FULL[] = { 0, 1, 2, 7, 8, 9, -1 };
 static const int DA_OUT_FULL[] = { 0, 1, 2, 7, 8, 9, 15, 16, 17, -1 };
 static const int *DA_IN = DA_IN_FULL, *DA_OUT = DA_OUT_FULL;
 static int NDA_IN = 7, NDA_OUT = 10;
-static int DA_NFLUSH = 3, DA_NEOS = 2; /* flush choices {NO,SYNC,FULL} and eos timing {with last chunk, late} */
+static int DA_NFLUSH = 3, DA_NEOS = 2;
+static int SE_REQUIRE_PROGRESS; /* C10: a call with end_of_stream, all input offered and avail_out>=1 must consume, produce or change state */ /* flush choices {NO,SYNC,FULL} and eos timing {with last chunk, late} */
 /* choice = ((ia * NDA_OUT + oa) * 3 + flush) * 2 + eos_timing */
 #define NDCHOICE (NDA_IN * NDA_OUT * 3 * 2)
 
@@ -533,6 +534,12 @@ static int def_call(int ci, int co, int flush, int eos_late, const struct ex_mod
 		if (def_verify_final(m, "end"))
 			return EX_VIOLATION;
 		return EX_TERMINAL;
+	}
+	if (SE_REQUIRE_PROGRESS && eos && cap >= 1 && consumed == 0 && produced == 0 && (int)DST->internal_state.state == st_before) {
+		v_violation(key, "C10: end_of_stream set, all remaining input offered, %zu bytes of output space, yet the call consumed nothing, produced nothing and left state %d unchanged "
+			    "(an endless loop for this caller); schedule [%s]", cap, st_before, m ? ex_path_str(m) : "");
+		nfail++;
+		return EX_VIOLATION;
 	}
 	if (consumed == 0 && produced == 0 && (int)DST->internal_state.state == st_before) {
 		if (!DCUR.zero_budget)
